@@ -144,7 +144,7 @@ Definition bellman_ford (start : nat) (edges : wgraph) (n : nat) (target : optio
       match getd d t with
       | None => BF.Infeasible                       (* distances[target] == inf *)
       | Some dt =>
-          match recon (S (S (length p))) p (Some t) [] with
+          match recon (S (length p)) p (Some t) [] with
           | Some path => BF.Path path dt
           | None => BF.Hang
           end
